@@ -272,14 +272,26 @@ def c_from_composer(it, recv, a):
     tup = VStruct("CompressedPolynomial", {f: VOpaque("index_of", [VOpaque("scalars"), Sym(f"{g}.{f}")]) for f in SEL_ORDER})
     sub.append(("map.or_insert", "polynomials", canon(tup), "len(polynomials)#0"))
     it.ctx.event("for_each_in_order", "composer.constraints", tuple(sub))
+    # the header of the description that is packed: the flag as given, the number of witnesses the composer ALLOCATED (the decoder
+    # validates every wire label against it), the public-input rows
+    it.ctx.event("pack.header", "hades_optimization=hades_optimization", "witnesses=len(composer.witnesses)")
     return VOpaque("havoc:result")
+
+
+def fc_pack(it, recv, a):
+    from vlib.ring import VStruct as _VS
+    if isinstance(recv, _VS) and "witnesses" in recv.fields and "hades_optimization" in recv.fields:
+        it.ctx.event("pack.header", "hades_optimization=" + canon(recv.fields["hades_optimization"]), "witnesses=" + canon(recv.fields["witnesses"]))
+        return UNIT
+    return NotImplemented
 
 
 u = Unit("compress.from_composer.index_assignment", CP, "CompressedCircuit::from_composer",
          [("hades_optimization", sym("hades_optimization")), ("composer", sym("composer"))], c_from_composer,
-         lambda res, args, ctx: {"effects": [e_ for e_ in ctx.log if e_ and e_[0] == "for_each_in_order" and e_[1] == "composer.constraints"]},
+         lambda res, args, ctx: {"effects": [e_ for e_ in ctx.log if e_ and e_[0] == "for_each_in_order" and e_[1] == "composer.constraints"],
+                                 "header": [e_ for e_ in ctx.log if e_ and e_[0] == "pack.header"]},
          trace_only=True, tracked=("scalars", "polynomials"), consts={"BlsScalar::SIZE": 32})
-u.extra_contracts = FC
+u.extra_contracts = dict(FC, **{".pack": fc_pack})
 UNITS.append(u)
 
 
